@@ -12,6 +12,7 @@
      _Phi   : d = 1/(1+theta*lam); w = (lam*y**2)*d**2; phi = sqrt(max(sum w, 0));
               safe = where(phi > 0, phi, 1); dphi = -(sum w*lam*d)/safe
      Solve  : theta = 0; active = phi0 - sigma_y - R(pOld) > 0
+              [optionally, with a rate law: theta = where(active, start, 0) with start >= 0]
               loop maxIter: phi,dphi; dG = theta*phi; r = phi - sigma_y - R(pOld+dG) [- inverse(dG/dt)]
                             slope = dR(pOld+dG) [+ dinverse(dG/dt)/dt]; ddG = phi + theta*dphi
                             drdtheta = dphi - slope*ddG
@@ -47,6 +48,10 @@ Section Generic.
   Variable Rh dRh : F -> F.
   Variable rate : option ((F -> F) * (F -> F)).
   Variable dt sy tol : F.
+  (* pre-loop iterate of the points that yield.  The pinned source starts every point from
+     theta = 0 (`start = fun _ => 0`); a rate-dependent start such as the explicit estimate
+     dt*rate(f_trial)/phi0 is covered by the same theorems as long as it is >= 0. *)
+  Variable start : F -> F -> F.     (* start phi0 f_trial *)
 
   (* one Gauss point: the pairs (lam_i, y_i) and the committed accumulated plastic strain *)
   Record point := mkPoint { pairs : list (F * F); pOld : F }.
@@ -137,7 +142,9 @@ Section Generic.
                                     next_v (st_act (fst v)) (st_th (fst v)) (snd v))) vs)
     end.
 
-  Definition init (pts : list point) : list pstate := map (fun pt => (pt, active pt, 0)) pts.
+  Definition theta0 (pt : point) : F :=
+    if active pt then start (phi (pairs pt) 0) (ftrial pt) else 0.
+  Definition init (pts : list point) : list pstate := map (fun pt => (pt, active pt, theta0 pt)) pts.
   Definition solve (maxIter : nat) (pts : list point) : list pstate := loop maxIter (init pts).
 
   (* whether the loop left through its `break` (the source does not return this; __Spectral
@@ -174,4 +181,4 @@ Definition Zops : Ops Z :=
 Definition zsolve_linear (H sy tol : Z) (maxIter : nat) (pts : list (@point Z))
   : list (Z * Z * Z * list Z) :=
   map (out_point Zops)
-      (solve Zops (fun p => (H * p / grid)%Z) (fun _ => H) None grid sy tol maxIter pts).
+      (solve Zops (fun p => (H * p / grid)%Z) (fun _ => H) None grid sy tol (fun _ _ => 0%Z) maxIter pts).
